@@ -914,7 +914,7 @@ impl<'a, 'b> Sentence<'a, 'b> {
             for tag in &ts[..ts.iter().rposition(|x| x.is_some()).map_or(0, |x| x + 1)] {
                 buf.push('/');
                 if let Some(tag) = tag {
-                    buf.push_str(tag);
+                    Self::push_partial_annotation_tag(buf, tag);
                 }
             }
             for ((c, ts), &b) in char_iter.zip(tag_iter).zip(&self.boundaries) {
@@ -927,7 +927,7 @@ impl<'a, 'b> Sentence<'a, 'b> {
                 for tag in &ts[..ts.iter().rposition(|x| x.is_some()).map_or(0, |x| x + 1)] {
                     buf.push('/');
                     if let Some(tag) = tag {
-                        buf.push_str(tag);
+                        Self::push_partial_annotation_tag(buf, tag);
                     }
                 }
             }
@@ -940,6 +940,16 @@ impl<'a, 'b> Sentence<'a, 'b> {
                 });
                 buf.push(c);
             }
+        }
+    }
+
+    /// Appends a tag, escaping the characters that are special in the partial annotation format.
+    fn push_partial_annotation_tag(buf: &mut String, tag: &str) {
+        for c in tag.chars() {
+            if matches!(c, '\\' | '/' | '-' | '|' | ' ') {
+                buf.push('\\');
+            }
+            buf.push(c);
         }
     }
 
